@@ -123,3 +123,60 @@ fn c15_sx1276_wire_ldro() { tape::init(); wire_ldro_contract(Sx127x::new(MockSpi
 #[kani::proof]
 #[kani::unwind(26)]
 fn c15_sx1272_wire_ldro() { tape::init(); wire_ldro_contract(Sx127x::new(MockSpi, MockIv, Config { chip: Sx1272, tcxo_used: false, tx_boost: false, rx_boost: false }), 0x80 | 0x1d, 0) }
+
+// ---------------------------------------------------------------------------------------- C17: PA settings decode
+// Datasheet decode (SX1276/7/8/9 rev 7 5.4.2-5.4.3, SX1272 5.4.2-5.4.3), in tenths of a dB:
+//   SX1276  RegPaConfig 0x09: [7] PaSelect [6:4] MaxPower [3:0] OutputPower
+//           RFO:      Pout = Pmax - (15 - OutputPower),  Pmax = 10.8 + 0.6 MaxPower
+//           PA_BOOST: Pout = 17 - (15 - OutputPower)   (+3 dB when RegPaDac 0x4d == 0x87)
+//   SX1272  RegPaConfig 0x09: [7] PaSelect [3:0] OutputPower
+//           RFO: Pout = -1 + OutputPower;  PA_BOOST: Pout = 2 + OutputPower (+3 dB when RegPaDac 0x5a == 0x87)
+fn last_write(reg: u8) -> Option<u8> {
+    let g = unsafe { &*(&raw const SPI) };
+    let mut val: Option<u8> = None;
+    let mut k = 0;
+    while k < LOG_LEN { if k < g.n && g.wl[k] == 2 && g.w[k][0] == (0x80 | reg) { val = Some(g.w[k][1]); } k += 1; }
+    val
+}
+fn tx_power_contract<C: Sx127xVariant>(mut r: Sx127x<MockSpi, MockIv, C>, sx1272: bool, boost: bool) {
+    let req: i32 = tape::i32();
+    let res = r.set_tx_power_and_ramp_time(req, None, tape::boolean());
+    if res.is_ok() {
+        let pa_config = last_write(0x09);
+        let pa_dac = last_write(if sx1272 { 0x5a } else { 0x4d });
+        assert!(pa_config.is_some() && pa_dac.is_some(), "C17 RegPaConfig and RegPaDac are programmed");
+        let (cfg, dac) = (pa_config.unwrap(), pa_dac.unwrap());
+        assert!(dac == 0x84 || dac == 0x87, "C17 RegPaDac holds one of the two documented values");
+        assert!(((cfg >> 7) == 1) == boost, "C17 PaSelect follows the board's PA path");
+        let op = (cfg & 0x0f) as i32;
+        let maxp = ((cfg >> 4) & 7) as i32;
+        let plus3 = if dac == 0x87 { 30 } else { 0 };
+        let (lo, hi, decoded_x10) = if sx1272 {
+            assert!(maxp == 0, "C17 SX1272 RegPaConfig[6:4] unused = 0");
+            if boost { (2, 20, (2 + op) * 10 + plus3) } else { (-1, 14, (-1 + op) * 10) }
+        } else if boost { (2, 20, (2 + op) * 10 + plus3) } else { (-4, 14, 108 + 6 * maxp - (15 - op) * 10) };
+        if !boost { assert!(dac == 0x84, "C17 the +20 dBm option is only legal on PA_BOOST"); }
+        let t = if req < lo { lo } else if req > hi { hi } else { req };
+        assert!(decoded_x10 <= t * 10, "C17 decoded output power never above the request clamped into the chip's range");
+        assert!(t * 10 - decoded_x10 < 10, "C17 decoded output power within 1 dB of the clamped request");
+    }
+    kani::cover!(res.is_ok() && req > 17, "verif-reached: high request");
+    kani::cover!(res.is_ok() && req < -4, "verif-reached: low request");
+    kani::cover!(res.is_ok() && req >= 0 && req <= 14, "verif-reached: mid request");
+}
+// @verif props=C17 obligation=Sx1276::set_tx_power.decode[PA_BOOST] label=proved-complete tier=quick bound="every i32 request"
+#[kani::proof]
+#[kani::unwind(26)]
+fn c17_sx1276_tx_power_boost() { tape::init(); tx_power_contract(Sx127x::new(MockSpi, MockIv, Config { chip: Sx1276, tcxo_used: false, tx_boost: true, rx_boost: false }), false, true) }
+// @verif props=C17 obligation=Sx1276::set_tx_power.decode[RFO] label=proved-complete tier=quick bound="every i32 request"
+#[kani::proof]
+#[kani::unwind(26)]
+fn c17_sx1276_tx_power_rfo() { tape::init(); tx_power_contract(Sx127x::new(MockSpi, MockIv, Config { chip: Sx1276, tcxo_used: false, tx_boost: false, rx_boost: false }), false, false) }
+// @verif props=C17 obligation=Sx1272::set_tx_power.decode[PA_BOOST] label=proved-complete tier=quick bound="every i32 request"
+#[kani::proof]
+#[kani::unwind(26)]
+fn c17_sx1272_tx_power_boost() { tape::init(); tx_power_contract(Sx127x::new(MockSpi, MockIv, Config { chip: Sx1272, tcxo_used: false, tx_boost: true, rx_boost: false }), true, true) }
+// @verif props=C17 obligation=Sx1272::set_tx_power.decode[RFO] label=proved-complete tier=quick bound="every i32 request"
+#[kani::proof]
+#[kani::unwind(26)]
+fn c17_sx1272_tx_power_rfo() { tape::init(); tx_power_contract(Sx127x::new(MockSpi, MockIv, Config { chip: Sx1272, tcxo_used: false, tx_boost: false, rx_boost: false }), true, false) }
